@@ -28,12 +28,13 @@ Qed.
 (* a full-width value delivered as FST text and the same value written as `b<value>` in a VCD mean the same *)
 Lemma fst_decodes_decodes bits g l s value : (1 <= bits)%nat -> length value = bits ->
   check_states value = Some l -> chars_to_nums value = Some s ->
-  decodes bits (g, l, s) (g, 98 :: value).
+  decodes bits (g, l, s) (g, RText (98 :: value)).
 Proof.
-  intros Hb Hlen Hcs Hcn. cbn [decodes fst snd]. split; [reflexivity|]. exists value.
+  intros Hb Hlen Hcs Hcn. cbn [decodes fst snd]. split; [reflexivity|].
   destruct (check_states_min value l Hcs) as (nums & Hn & Hs & H8 & Hmin).
   rewrite Hcn in Hn. inversion Hn; subst nums.
-  split; [|repeat split; assumption].
+  split; [|split; assumption]. exists value.
+  split; [|split; assumption].
   unfold normalize, strip_prefix. cbn [is_b N.eqb Pos.eqb orb bind].
   assert (Hnorm : (if (length value <=? 2)%nat then Ok value
                    else match value with 48 :: 98 :: r2 => Ok r2 | _ => Ok value end) = Ok value).
@@ -57,11 +58,11 @@ Hypothesis cap_u16 : cap <= 65536.
 (* the same list of (time index, value) changes, once recorded by the VCD encoder (as `b<value>` tokens, in any
    block segmentation) and once delivered to the FST signal writer, is reported identically *)
 Theorem vcd_fst_same_report id bits tpes ops e blocks ttb (cs : list (N * list byte)) sw :
-  (1 <= bits)%nat -> nth_error tpes id = Some (EncBits bits) -> Forall (op_ok id) ops ->
+  (1 <= bits)%nat -> nth_error tpes id = Some (EncBits bits) -> Forall (op_ok id bits) ops ->
   N.of_nat (count_vcd id ops) * (10 + N.of_nat bits) < 4294967264 ->
   run_ops parse_f64 lz_compress cap (enc_new tpes) ops = Ok e ->
   enc_finish lz_compress e = Ok (blocks, ttb) -> N.of_nat (length ttb) < 4294967296 ->
-  recorded id ops [] false = map (fun c : N * list byte => (fst c, 98 :: snd c)) cs ->
+  recorded id ops [] false = map (fun c : N * list byte => (fst c, RText (98 :: snd c))) cs ->
   Forall (fun c : N * list byte => length (snd c) = bits) cs ->
   sw_run (sw_new (EncBits bits)) (map (fun c : N * list byte => (fst c, FvString (snd c))) cs) = Ok sw ->
   exists sig, load_signal lz_decompress blocks id (EncBits bits) = Ok sig /\
